@@ -36,6 +36,11 @@ def cases(rng, tier):
         yield rvgen.as_text_case(c_) if i % 4 == 3 else c_        # every fourth program goes through the loader
     for prog, regs in rvgen.long_programs(rng, tier):
         yield rvgen.long_case(prog, regs, "five", True, dspec=rvgen.penalty_cache_spec(rng, "d"), ispec=rvgen.penalty_cache_spec(rng, "i"), suite="sim-five")
+    for prog, regs in rvgen.store_hit_programs():          # every store width as hit and miss under caches with a penalty
+        for mode in ("five",):
+            for d in ("wb,plru,1,1,2,3", "wt,lru,1,0,1,2", "wt,plru,0,1,2,5"):
+                lines = rvgen.header(mode, True, d, "-", prog, regs, []) + ["sim.snap"] + ["sim.step", "sim.snap"] * 6 + ["sim.run 200", "sim.snap"]
+                yield Case("sim-five", lines, None, {"mode": mode, "hazard": True, "prog": prog, "regs": regs, "pokes": [], "d": d, "i": "-"})
     for prog, regs in rvgen.fault_schedule_programs():          # schedules around faults, drains and squashed instructions
         lines = rvgen.header("five", True, "-", "-", prog, regs, []) + ["sim.snap"]
         for _ in range(16):
